@@ -11,7 +11,7 @@ def run(chk, tier, seed):
         jobs.append(dict(tag="rand", args=["rand", 60 if tier == "quick" else 400, seed, "{out}"]))
         refcheck.gen_and_validate(chk, "strings", jobs, "StrTrace", mode=mode, threads=16, timeout=1500)
     chk.cov["exhaustive"] = not chk.infra
-    chk.cov["rule"] = ("every string up to length 3 (quick) / 4 (thorough) over {space, tab, LF, 'a', 'B', ',', '\"', 0xE9} and seeded random longer "
+    chk.cov["rule"] = ("every string up to length 3 (quick) / 4 (thorough) over {space, tab, LF, CR, 'a', 'B', ',', '\"', 0xE9} and seeded random longer "
                        "strings: the three trims, unchar, the four replace modes x 5 token lists x 4 words, bounded copies for every buffer size 1..n+2 "
                        "and byte count 0..n, reversal, case conversion, tokenizer and qstrtokenizer with two delimiter sets, the line reader, "
                        "dup_between; destination buffers are exactly sized between canaries; plain and ASan+UBSan builds; TLC evaluates the "
